@@ -326,7 +326,14 @@ func waitIdle(c *scriptConn) bool {
 }
 
 // execClientHistory: fields [rto, maxAttempts, closeConn, fallback] op...
+// clientStuck: histories abandoned because Close never returned; after 5 the remaining histories are not
+// run (each costs the watchdog delay)
+var clientStuck atomic.Int32
+
 func execClientHistory(o *out, f [][]int) []int {
+	if clientStuck.Load() >= 5 {
+		return []int{778}
+	}
 	parts := make([]string, len(f))
 	for i, x := range f {
 		parts[i] = fNums(x...)
@@ -608,6 +615,8 @@ func execClientHistory(o *out, f [][]int) []int {
 					case cerr = <-done:
 					case <-time.After(5 * time.Second):
 						o.failFor("C15", "close-did-not-return", h.line)
+						clientStuck.Add(1)
+						return append(obs, 777)
 					}
 				}
 			} else {
@@ -618,7 +627,8 @@ func execClientHistory(o *out, f [][]int) []int {
 				case cerr = <-done:
 				case <-time.After(5 * time.Second):
 					o.failFor("C15", "close-did-not-return", h.line)
-					cerr = errors.New("hung")
+					clientStuck.Add(1)
+					return append(obs, 777) // the client is wedged: nothing after this can be observed
 				}
 			}
 			if cerr == nil {
